@@ -232,6 +232,12 @@ def _validate_list_match(
     return ResourceMatch(match=True, differences=())
 
 
+def _set_member(value):
+    # `True == 1` and `False == 0` in Python; keep booleans apart from numbers
+    # so that a set-compared list tells `[1]` from `[true]`.
+    return (isinstance(value, bool), value)
+
+
 def _validate_set_match(target: list | tuple, actual: list | tuple) -> ResourceMatch:
     if not target and not actual:
         return ResourceMatch(match=True, differences=())
@@ -245,8 +251,8 @@ def _validate_set_match(target: list | tuple, actual: list | tuple) -> ResourceM
         )
 
     try:
-        target_set = set(target)
-        actual_set = set(actual)
+        target_set = {_set_member(value) for value in target}
+        actual_set = {_set_member(value) for value in actual}
     except TypeError as err:
         if "dict" in f"{err}":
             return ResourceMatch(
@@ -270,10 +276,10 @@ def _validate_set_match(target: list | tuple, actual: list | tuple) -> ResourceM
     if not (missing_values or unexpected_values):
         return ResourceMatch(match=True, differences=())
 
-    for missing_value in missing_values:
+    for _, missing_value in missing_values:
         return ResourceMatch(match=False, differences=(f"<missing '{missing_value}'>",))
 
-    for unexpected_value in unexpected_values:
+    for _, unexpected_value in unexpected_values:
         return ResourceMatch(
             match=False, differences=(f"<unexpectedly found '{unexpected_value}'>",)
         )
